@@ -11,7 +11,8 @@ Oracles (independent of the library's recursions, angle conventions and chain ru
     g_lm(r) = r^p (a0 + a1 r + a2 r^2) exp(-b r), so that every angular integral / projection is known in closed form;
   * Cartesian polynomials of total degree <= min(3, L): band-limited about EVERY centre with cubic radial factors, hence
     reproduced exactly (values, gradient, radial derivatives) by spline x harmonic interpolation at every point of space,
-    also by molecular grids whose atom-in-molecule weights are constant per atom;
+    also by molecular grids whose atom-in-molecule weights are constant per atom (assumed contract of SciPy: the default
+    not-a-knot CubicSpline reproduces cubics; tolerances carry the noise  accuracy-of-the-angular-tables / knot spacing);
   * brute-force shell sums with the weights of a freshly built AngularGrid; central differences of the interpolant itself.
 
 Every check is a postcondition of the property statement evaluated on the real AtomGrid / MolGrid.
@@ -217,8 +218,8 @@ def func_spec(g, band, vanish_at_origin):
     return {"band": band, "a": a.tolist(), "b": b.tolist(), "p": p}
 
 
-def g_radial(fs, r, nu=0):
-    """g_lm(r) (rows, n) of a function spec (nu = 0 only is needed for the values)."""
+def g_radial(fs, r):
+    """g_lm(r), shape (rows, n), of a function spec."""
     r = np.asarray(r, dtype=float)
     a, b, p = np.array(fs["a"]), np.array(fs["b"]), np.array(fs["p"], dtype=float)
     poly = a[:, 0, None] + a[:, 1, None] * r[None, :] + a[:, 2, None] * r[None, :] ** 2
@@ -277,7 +278,7 @@ def poly_radial_derivs(ps, center, r, u):
     out = np.zeros((4, len(r)))
     for n in range(len(r)):
         # coefficients in r of f(center + r u) (degree <= 3): fit exactly from 4 nodes (own Vandermonde, well conditioned)
-        t = np.array([0.0, 1.0, 2.0, 3.0]) * max(1.0, r[n]) / 3.0 + 0.0
+        t = np.array([0.0, 1.0, 2.0, 3.0]) * max(1.0, r[n]) / 3.0
         v = poly_eval(ps, center[None, :] + t[:, None] * u[n][None, :])
         co = np.polyfit(t, v, 3)
         for k in range(4):
@@ -765,8 +766,10 @@ def polynomial_contracts(col, g, spec, grid, var, inp, pts):
     def tol_at(P, nu, base):
         """base tolerance plus the rounding noise eps / h^nu of a spline through rounded data with local knot spacing h."""
         r, _ = split_points(P, c)
-        h_min = float(np.min(np.diff(knots)))          # a slope error eps / h_min of one short interval spreads through the C1 conditions
-        return size * (base + 2e-14 / h_min + (2e-14 / local_spacing(knots, r) ** nu if nu else 0.0)), r
+        # the projected knot values carry the accuracy of the tabulated angular grids (about 1e-13 .. 1e-12 absolute); a slope error
+        # of one short interval, noise / h_min, spreads through the C1 conditions of the spline
+        h_min = float(np.min(np.diff(knots)))
+        return size * (base + 2e-12 / h_min + (2e-12 / local_spacing(knots, r) ** nu if nu else 0.0)), r
 
     def c_values():
         P = np.vstack([gen, axis, centre, grid.points[:: max(1, grid.size // 40)]])
@@ -1038,7 +1041,7 @@ def oracle_selfcheck(col, g):
             want = cpx.real if m == 0 else math.sqrt(2) * (cpx.real if m > 0 else cpx.imag)
             if not np.allclose(Y[row], want, rtol=0, atol=2e-13):
                 return False, f"own harmonic (l,m)=({l},{m}) differs from SciPy's"
-        # orthonormality under a degree-17 Lebedev-type rule is the library's business; here: gradient against differences
+        # own gradient against central differences of the own values
         h = 1e-6
         for a in range(3):
             e = np.zeros(3)
